@@ -308,11 +308,11 @@ class Sim(object):
                 out.append(r.data)
         return out
 
-    def retain(self, seq, cidx, raw):
+    def retain(self, seq, cidx, raw, op=None):
         arrs = self._arrays(raw)
         if not arrs:
             return
-        self.retained.append([seq, cidx, arrs, [a.tobytes() for a in arrs]])
+        self.retained.append([seq, cidx, arrs, [a.tobytes() for a in arrs], op])
         mine = [r for r in self.retained if r[1] == cidx]
         if len(mine) > 4:
             self.retained.remove(mine[0])
@@ -330,7 +330,7 @@ class Sim(object):
             if all(a.tobytes() == b for a, b in zip(r[2], r[3])):
                 keep.append(r)
             else:
-                ev.setdefault('unstable', []).append({'result_of_seq': r[0], 'client': r[1]})
+                ev.setdefault('unstable', []).append({'result_of_seq': r[0], 'client': r[1], 'op': r[4]})
         self.retained = keep
 
     def reset_client(self, c):
@@ -551,7 +551,7 @@ class Sim(object):
                     if line_n is not None:
                         self.line.stop()
             ev['out'] = ['ok', out]
-            self.retain(step['seq'], c.idx, raw)
+            self.retain(step['seq'], c.idx, raw, op)
         except BaseException as e:  # noqa: injected interrupts are BaseException
             if isinstance(e, (SystemExit, GeneratorExit)):
                 raise
